@@ -83,6 +83,7 @@ class Doc:
     font_meta: dict = field(default_factory=dict)  # number -> {charset, family}
     colors: list = field(default_factory=list)     # index -> (r,g,b) | None (auto)
     has_colortbl: bool = False
+    colortbls: list = field(default_factory=list)  # every {\\colortbl} group in order of appearance
     pages: list = field(default_factory=lambda: [[]])
     geom: list = field(default_factory=lambda: [{}])   # per page: geometry keywords seen on it
     page_breaks: list = field(default_factory=list)     # byte offsets of \page
@@ -107,7 +108,10 @@ class _Builder:
         self.last_group_cprops = None
 
 
-def read(data: str | bytes) -> Doc:
+def read(data: str | bytes, track_colortbl: bool = False) -> Doc:
+    """track_colortbl: a document may contain several {\\colortbl} groups (assemble_rtf keeps each input's table where the
+    input starts; a later table replaces the earlier one for what follows).  With the flag every character-property
+    snapshot carries "_ct" = number of colour tables seen so far, and doc.colortbls holds the tables in order."""
     if isinstance(data, str):
         data = data.encode("utf-8")
     s = data
@@ -165,6 +169,8 @@ def read(data: str | bytes) -> Doc:
                         doc.colors.append((color_cur.get("red", 0), color_cur.get("green", 0), color_cur.get("blue", 0)))
                     else:
                         doc.colors.append(None)
+                    if doc.colortbls:
+                        doc.colortbls[-1].append(doc.colors[-1])
                     color_cur.clear()
                 elif not c.isspace():
                     doc.anom.append(("colortbl_text", c))
@@ -374,6 +380,11 @@ def read(data: str | bytes) -> Doc:
         if w == "colortbl":
             st["dest"] = "colortbl"
             doc.has_colortbl = True
+            doc.colortbls.append([])
+            if track_colortbl:
+                for frame in stack:
+                    frame["c"]["_ct"] = len(doc.colortbls)
+                st["c"]["_ct"] = len(doc.colortbls)
             continue
         if w in ("header", "footer"):
             st["dest"] = w
